@@ -460,10 +460,14 @@ Section RaysObject.
              (ishape : nat * (nat * nat)) (interior : list (list (list Z))) (ilay : order) (b : Z)
              (fp : list (item V PS)) (order_arg : option order) : res rays_obj :=
     let d := fst ishape in let n := fst (snd ishape) in let m := snd (snd ishape) in
-    match ends_len fp with
+    (* the chained comparison short-circuits: when times.shape != interior_indices.shape[1:] the
+       AssertionError is raised BEFORE len(points[0]) / len(points[-1]) are evaluated (so a number at an
+       end of the path is a TypeError only if the first two shapes agree) *)
+    if negb (nat2_eqb tshape (n, m)) then inl AssertionError
+    else match ends_len fp with
     | None => inl OtherError
     | Some e =>
-        if negb (nat2_eqb tshape (n, m) && nat2_eqb (n, m) e) then inl AssertionError
+        if negb (nat2_eqb (n, m) e) then inl AssertionError
         else if negb (fp_num_points_sets fp =? d + 2) then inl AssertionError
         else inr (mkRaysObj tshape times tlay (make_indices_z b n m interior)
                             (make_indices_order order_arg ilay [d; n; m]) b fp)
